@@ -16,15 +16,18 @@ def token_ops(root: Any) -> list[list]:
     out = []
     for i, t in enumerate(root.token_store):
         name = type(t).__name__
-        texts = list(ops.RAW_DOMAIN.get(name, [])) + GENERIC_RAW
+        domain = list(ops.RAW_DOMAIN.get(name, []))
+        if isinstance(t, M.BlockComment) and t.indent:
+            domain = [t.indent + x.replace('\n', '\n' + t.indent) for x in domain]
         seen = set()
-        for s in texts:
+        for s in domain + GENERIC_RAW:
             if s != t.raw_text and s not in seen:
                 seen.add(s)
-                out.append(['tokraw', ['@', i], s])
+                # 5th element: the text is in the token type's language, so the assignment must succeed
+                out.append(['tokraw', ['@', i], s] + (['in-domain'] if s in domain else []))
         if isinstance(t, VP.RWValue):
             for v in ops.token_values(t):
-                out.append(['tokval', ['@', i], ops.enc(v)])
+                out.append(['tokval', ['@', i], ops.enc(v), 'in-domain'])
             if isinstance(t, M.BlockComment):
                 out.append(['tokval', ['@', i], ['s', 'y\nw']])
                 out.append(['tokval', ['@', i], ['s', '']])
@@ -87,6 +90,9 @@ class TokenOracle(docexp.Oracle):
         sig = f'{type(pre["target"]).__name__}.{"value" if op[0] == "tokval" else "raw_text"}'
         if 'pos' in self.clauses:
             check_positions(root, res, where, sig)
+        if 'span' in self.clauses and ap.exc is not None and op[-1] == 'in-domain':
+            res.fail(f'C02/in-domain-assignment-raises[{sig}]', where + f'{type(ap.exc).__name__}: {ap.exc}')
+            return
         if 'span' not in self.clauses or ap.exc is not None:
             return
         toks1 = list(root.token_store)
